@@ -69,7 +69,8 @@ pub open spec fn at<I: Input>(orig: Seq<u8>, c: (I, usize), p: int) -> bool {
 /// are pure position arithmetic); given its bit-level meaning in K where `take` is validated.
 pub uninterp spec fn fld(s: Seq<u8>, off: int, w: int) -> int;
 
-/// byte cursor: `i` is the suffix of `orig` starting at byte `p`
+/// byte cursor: `i` is the suffix of `orig` starting at byte `p` (opaque for the same reason as `at`)
+#[verifier::opaque]
 pub open spec fn suf(orig: Seq<u8>, i: &[u8], p: int) -> bool {
     0 <= p <= orig.len() && i@ == orig.subrange(p, orig.len() as int)
 }
@@ -187,7 +188,8 @@ pub mod bytes { pub mod complete {
                 (i@.len() >= 1 && i@[0] == tagbyte(t) ==> r is Ok && r->Ok_0.1@ == i@.subrange(0, 1) && r->Ok_0.0@ == i@.subrange(1, i@.len() as int))
                 && (!(i@.len() >= 1 && i@[0] == tagbyte(t)) ==> is_error(r))
                 && (r is Ok ==> suf(i@, r->Ok_0.0, 1))
-                && (forall|orig: Seq<u8>, p: int| #[trigger] suf(orig, i, p) && r is Ok ==> suf(orig, r->Ok_0.0, p + 1)),
+                && (forall|orig: Seq<u8>, p: int| #[trigger] suf(orig, i, p) ==>
+                        if p < orig.len() && orig[p] == tagbyte(t) { r is Ok && suf(orig, r->Ok_0.0, p + 1) } else { is_error(r) }),
     { move |i: &'a [u8]| Err(Err::Incomplete(Needed::Unknown)) }
 
     #[verifier::external_body]
@@ -265,7 +267,7 @@ pub mod sequence {
 
     #[verifier::external_body]
     pub fn delimited<I, O1, O2, O3, E, F: Fn(I) -> IResult<I, O1, E>, G: Fn(I) -> IResult<I, O2, E>, H: Fn(I) -> IResult<I, O3, E>>(a: F, b: G, c: H) -> (f: impl Fn(I) -> IResult<I, O2, E>)
-        ensures forall|i: I| #[trigger] f.requires((i,)) <== (forall|j: I| a.requires((j,)) && b.requires((j,)) && c.requires((j,))),
+        ensures forall|i: I| #[trigger] f.requires((i,)) <== (a.requires((i,)) && forall|j: I| b.requires((j,)) && c.requires((j,))),
             forall|i: I, r: IResult<I, O2, E>| #[trigger] f.ensures((i,), r) ==>
                 exists|ra: IResult<I, O1, E>| a.ensures((i,), ra) && (ra is Err ==> r is Err && is_error(ra) == is_error(r)) && (ra is Ok ==>
                     exists|rb: IResult<I, O2, E>| b.ensures((ra->Ok_0.0,), rb) && (rb is Err ==> r is Err && is_error(rb) == is_error(r)) && (rb is Ok ==>
@@ -275,7 +277,7 @@ pub mod sequence {
 
     #[verifier::external_body]
     pub fn terminated<I, O1, O2, E, F: Fn(I) -> IResult<I, O1, E>, G: Fn(I) -> IResult<I, O2, E>>(a: F, b: G) -> (f: impl Fn(I) -> IResult<I, O1, E>)
-        ensures forall|i: I| #[trigger] f.requires((i,)) <== (forall|j: I| a.requires((j,)) && b.requires((j,))),
+        ensures forall|i: I| #[trigger] f.requires((i,)) <== (a.requires((i,)) && forall|j: I| b.requires((j,))),
             forall|i: I, r: IResult<I, O1, E>| #[trigger] f.ensures((i,), r) ==>
                 exists|ra: IResult<I, O1, E>| a.ensures((i,), ra) && (ra is Err ==> r is Err) && (ra is Ok ==>
                     exists|rb: IResult<I, O2, E>| b.ensures((ra->Ok_0.0,), rb) && (rb is Err ==> r is Err)
